@@ -51,7 +51,7 @@ func TestC23(t *testing.T) {
 	defer r.Finish()
 	polyeth.VerifSealBypass = true
 	defer func() { polyeth.VerifSealBypass = false }()
-	r.Rule("per router: a synced synthetic chain (trust root, 2 blocks without the deposits, then blocks whose state holds ~45 committed deposits, one non-canonical fork block holding an extra deposit) with BlocksToWait in {1,2,6}; ~45 proof cases per chain, each with its own deposit: valid at depth / exactly at the confirmation boundary / one short of it / above head / below the trust root / at a block before the deposit; truncated, reordered, padded proofs; node from another trie; other account; CCMC mismatch; altered account fields; wrong slot; message altered / truncated; absence proofs; fork-block deposit; malformed JSON; distinct = (router, BlocksToWait, case)")
+	r.Rule("per router: a synced synthetic chain (trust root, 2 blocks without the deposits, then blocks whose state holds ~45 committed deposits, one non-canonical fork block holding an extra deposit) with BlocksToWait in {1,2,6}; ~45 proof cases per chain, each with its own deposit: valid at depth / exactly at the confirmation boundary / one short of it / above head / below the trust root / at a block before the deposit; truncated, reordered, padded proofs; node from another trie; other account; CCMC mismatch; altered account fields; wrong slot; message altered / truncated; slots holding short words (1, 2, 3, 16, 31 bytes) equal to the tail / head of the message hash; commitments off by one byte; hash with a leading zero byte (must be accepted); absence proofs; fork-block deposit; malformed JSON; distinct = (router, BlocksToWait, case)")
 	r.Assume("confirmations are counted as the handlers define them: a block at the head has 1 confirmation, so a deposit at height h is confirmed when head - h + 1 >= BlocksToWait (BlocksToWait >= 1 is enforced at registration)")
 	r.Assume("cases whose claim is true but whose proof is not in canonical eth_getProof form (nodes reordered, junk nodes added, two storage proofs, odd hex casing) are checked for soundness only: if accepted, the delivered message must be the submitted one")
 	r.Assume("driven through cross_chain_manager.ImportOuterTransfer (entrance.go), destination chain registered, fresh cross-chain id per case; replay protection belongs to C20 and is only recorded here")
@@ -79,7 +79,8 @@ func TestC23(t *testing.T) {
 		}
 		covered = append(covered, name)
 		r.Require(name+":accepted", trials*3*4)
-		r.Require(name+":rejected", trials*3*25)
+		r.Require(name+":rejected", trials*3*35)
+		r.Require(name+":rejected_short_word", trials*3*10)
 		r.Require(name+":accepted_at_confirmation_boundary", trials*3)
 		r.Require(name+":rejected_one_short_of_confirmations", trials*2)
 		r.Require(name+":rejected_fork_block_deposit", trials*3)
@@ -147,6 +148,40 @@ func runChain(r *kit.Run, rng *rand.Rand, e *es.Env, name string, chainID, w uin
 		lz.Args = append(lz.Args[:0], byte(rng.Intn(256)), byte(rng.Intn(256)), byte(rng.Intn(256)))
 	}
 	stB.Commit(ccmc, slotLZ, lz.Serialize())
+	// short words: a slot of the contract holds only k < 32 significant bytes that equal the LAST k
+	// (or the FIRST k) bytes of keccak256(message); as a 32-byte word this is 0..0|bytes, which is
+	// not the commitment of the message (equivalent to grinding a message against a counter/flag slot)
+	type shortCase struct {
+		name string
+		slot es.Hash
+		msg  []byte
+	}
+	var shorts []shortCase
+	for _, k := range []int{1, 2, 3, 16, 31} {
+		for _, tail := range []bool{true, false} {
+			var p *es.TxParam
+			var hsh es.Hash
+			for { // the dropped part must be non-zero and the kept part must start with a non-zero byte
+				p = es.RandTxParam(rng, targetChain)
+				hsh = es.Keccak(p.Serialize())
+				if tail && hsh[32-k] != 0 && hsh[0] != 0 || !tail && hsh[0] != 0 && hsh[31] != 0 {
+					break
+				}
+			}
+			var word es.Hash
+			nm := fmt.Sprintf("short-word-%d-bytes-equal-hash-", k)
+			if tail {
+				copy(word[32-k:], hsh[32-k:])
+				nm += "tail"
+			} else {
+				copy(word[32-k:], hsh[:k])
+				nm += "head"
+			}
+			sc := shortCase{nm, es.RandHash(rng), p.Serialize()}
+			stB.CommitRaw(ccmc, sc.slot, word)
+			shorts = append(shorts, sc)
+		}
+	}
 	stF := stB.Clone() // the fork block's state: one more deposit
 	fp := es.RandTxParam(rng, targetChain)
 	fdep := dep{slot: es.RandHash(rng), msg: fp.Serialize(), param: fp}
@@ -343,6 +378,9 @@ func runChain(r *kit.Run, rng *rand.Rand, e *es.Env, name string, chainID, w uin
 	add("commitment-differs-in-first-byte", h0, stB.Prove(ccmc, slotNF), nearFirst.Serialize(), reject)
 	add("commitment-differs-in-last-byte", h0, stB.Prove(ccmc, slotNL), nearLast.Serialize(), reject)
 	add("valid-hash-with-leading-zero-byte", h0, stB.Prove(ccmc, slotLZ), lz.Serialize(), accept)
+	for _, sc := range shorts {
+		add(sc.name, h0, stB.Prove(ccmc, sc.slot), sc.msg, reject)
+	}
 	add("fork-block-deposit", hf, stF.Prove(ccmc, fdep.slot), fdep.msg, reject)
 	add("fork-block-deposit-at-other-height", h0, stF.Prove(ccmc, fdep.slot), fdep.msg, reject)
 	d = take()
@@ -471,6 +509,9 @@ func runCase(r *kit.Run, e *es.Env, router string, chainID, w uint64, src string
 				}
 			case "fork-block-deposit":
 				r.Count(router+":rejected_fork_block_deposit", 1)
+			}
+			if strings.HasPrefix(c.name, "short-word-") {
+				r.Count(router+":rejected_short_word", 1)
 			}
 		}
 	case soundOnly:
